@@ -269,6 +269,7 @@ func genVec(rng *rand.Rand, base int) vec {
 func genMulti(rng *rand.Rand) multiCase {
 	var c multiCase
 	nruns := 2 + rng.Intn(7)
+	retries := rng.Intn(3) == 0 // some runs are further attempts of the same test label
 	nfiles := 1 + rng.Intn(len(filePool))
 	files := make([]string, len(filePool))
 	copy(files, filePool)
@@ -283,6 +284,10 @@ func genMulti(rng *rand.Rand) multiCase {
 	}
 	for i := 0; i < nruns; i++ {
 		rc := runCov{Label: fmt.Sprintf("//pkg%d:test_%d", i%3, i)}
+		if retries && i > 0 && rng.Intn(2) == 0 {
+			// another attempt of an earlier test (flaky retry / --num_runs): same label, its own coverage
+			rc.Label = c.Runs[rng.Intn(i)].Label
+		}
 		for _, f := range files {
 			if rng.Intn(4) == 0 && nfiles > 1 {
 				continue // this run does not touch the file
@@ -363,13 +368,23 @@ func compareAgg(r *lib.Run, idx int, how string, c multiCase, order []int, got *
 			ok = false
 		}
 	}
-	// Per-test coverage: labels are distinct per run ("tests are independent"), so the union is expected.
-	if len(got.Tests) != len(c.Runs) {
-		r.Violation(how+"/tests-map-size", fmt.Sprintf("aggregate in order %v records %d tests, %d distinct labels were merged", order, len(got.Tests), len(c.Runs)), wit(), idx)
+	// Per-test coverage: one entry per distinct label. When several runs share a label (retries) the per-test
+	// entry is whichever attempt was merged last - the code documents no more - so only its presence is checked;
+	// the per-file aggregate above must still be the best state over ALL attempts whatever the order.
+	labels := map[string]int{}
+	for _, rc := range c.Runs {
+		labels[rc.Label]++
+	}
+	if len(got.Tests) != len(labels) {
+		r.Violation(how+"/tests-map-size", fmt.Sprintf("aggregate in order %v records %d tests, %d distinct labels were merged", order, len(got.Tests), len(labels)), wit(), idx)
 		ok = false
 	}
 	for _, rc := range c.Runs {
 		per, present := got.Tests[core.ParseBuildLabel(rc.Label, "")]
+		if present && labels[rc.Label] > 1 {
+			r.Obs("runs_sharing_a_label_checked", 1)
+			continue
+		}
 		if !present {
 			r.Violation(how+"/tests-map-missing", fmt.Sprintf("test %s missing from aggregate in order %v", rc.Label, order), wit(), idx)
 			ok = false
